@@ -183,9 +183,11 @@ static int v_stat(const char *p, struct stat *st)
 	(void)st;
 	return -1; /* nothing exists: the search visits every directory */
 }
+static int first_lex_line = -1;
 int cfg_yylex(cfg_t *cfg)
 {
-	(void)cfg;
+	if (first_lex_line < 0)
+		first_lex_line = cfg->line; /* the line the parse starts counting from */
 	return -1; /* empty input */
 }
 void cfg_yylex_destroy(void) { }
@@ -618,8 +620,15 @@ int main(void)
 		init_opt(O, "o", CFGT_INT, CFGF_NONE);
 		init_cfg(&root, "root", ropts, CFGF_NONE);
 		oldname = root.filename;
+		{
+			V_IN_INT(vin_prev_line);
+			V_ASSUME(vin_prev_line >= 0 && vin_prev_line < 100000);
+			root.line = vin_prev_line; /* wherever an earlier parse into this context stopped */
+		}
 		arm();
 		rc = cfg_parse_buf(&root, "x");
+		if (first_lex_line >= 0)
+			V_ASSERT(first_lex_line == 1, "[C06] every parse starts counting at line 1, wherever an earlier parse into the same context stopped");
 		if (rc != CFG_SUCCESS) {
 			V_ASSERT(vf_failed, "[C18] parsing an (empty) buffer only fails when an allocation failed");
 			V_ASSERT(rc == CFG_PARSE_ERROR || rc == CFG_FILE_ERROR, "[C18] a failed parse reports one of the documented error codes");
